@@ -52,7 +52,7 @@ ColsOf(t) == CASE t = "sys_pages"  -> << <<"table_name", 1>>, <<"file_offset", 3
                [] OTHER -> << <<"a", 0>> >>
 
 Hdr(lk, pt, nx, lsn) == [lastKey |-> lk, ptRoot |-> pt, nx |-> nx, lsn |-> lsn]
-Idle == [k |-> "idle", todo |-> {}, orig |-> {}, after |-> "", recs |-> <<>>, i |-> 0, sub |-> ""]
+Idle == [k |-> "idle", todo |-> {}, orig |-> {}, fresh |-> {}, after |-> "", recs |-> <<>>, i |-> 0, sub |-> ""]
 
 -----------------------------------------------------------------------------
 (* Page-level evaluation.  S = [c, nx, h]: dirty pages, next free page,      *)
@@ -93,12 +93,13 @@ UpdatePageTable(S, d, name, newRoot) ==
      IN [S |-> [S EXCEPT !.c = Upd(S.c, p, n2), !.h = [S.h EXCEPT !.lsn = @ + 1]],
          recs |-> <<[op |-> "upd", lsn |-> S.h.lsn, pg |-> p, k |-> cell.k, v |-> PV(name, newRoot)]>>, err |-> "ok"]
 
-\* RelationService.Insert: one row.  v = -1: rejected by Tuple.Encode (nothing happens);
-\* v = -2: rejected by the page (row too large) after the counters were advanced.
+\* RelationService.Insert: one row.  v = -1 (wrong type), -3 (column count mismatch), -4 (INT out of
+\* range): rejected before anything happens; v = -2: rejected by the page (row too large) after the
+\* key and LSN counters were advanced.
 InsertRow(S, d, t, v) ==
   LET root == RootOf(S, d, t) IN
   IF root = 0 THEN [S |-> S, recs |-> <<>>, err |-> "notable"] ELSE
-  IF v = -1 THEN [S |-> S, recs |-> <<>>, err |-> "type"] ELSE
+  IF v \in {-1, -3, -4} THEN [S |-> S, recs |-> <<>>, err |-> "type"] ELSE
   LET r == TreeInsert(S, d, root, RV(v), v = -2) IN
   IF r.err # "ok" THEN [S |-> r.S, recs |-> <<>>, err |-> r.err] ELSE
   LET rec == [op |-> "ins", lsn |-> r.lsn, pg |-> root, k |-> r.key, v |-> RV(v)] IN
@@ -292,7 +293,7 @@ CreateStmt(t) ==
      IF r.err = "ok"
      THEN IF FlushSteps
           THEN /\ Commit(r.S)
-               /\ pc' = [Idle EXCEPT !.k = "flush", !.todo = DOMAIN r.S.c, !.orig = DOMAIN r.S.c, !.after = "create"]
+               /\ pc' = [Idle EXCEPT !.k = "flush", !.todo = DOMAIN r.S.c, !.orig = DOMAIN r.S.c, !.fresh = (DOMAIN r.S.c) \ (DOMAIN disk), !.after = "create"]
                /\ pend' = << WithTable(abs, t) >> /\ Out("none")
                /\ UNCHANGED <<disk, dhdr, abs>>
           ELSE /\ disk' = Written(disk, r.S.c, DOMAIN r.S.c) /\ cache' = <<>>
@@ -305,7 +306,7 @@ CreateStmt(t) ==
 FlushBegin ==
   /\ pc.k = "idle"
   /\ IF FlushSteps
-     THEN /\ pc' = [Idle EXCEPT !.k = "flush", !.todo = DOMAIN cache, !.orig = DOMAIN cache, !.after = "idle"]
+     THEN /\ pc' = [Idle EXCEPT !.k = "flush", !.todo = DOMAIN cache, !.orig = DOMAIN cache, !.fresh = (DOMAIN cache) \ (DOMAIN disk), !.after = "idle"]
           /\ Out("none") /\ UNCHANGED <<disk, dhdr, cache>>
      ELSE /\ disk' = Written(disk, cache, DOMAIN cache) /\ cache' = <<>> /\ dhdr' = mhdr
           /\ pc' = Idle /\ Out("flushed")
@@ -340,9 +341,11 @@ FlushHdr ==
 -----------------------------------------------------------------------------
 (* Crash and recovery.                                                       *)
 
-\* pages of one flush that carry the same LSN were changed by one row operation (a split);
-\* a flush torn inside such a group is the known finding torn-split-flush
-SameLsnTorn == \E p \in pc.orig \ pc.todo, q \in pc.todo : disk[p].lsn = cache[q].lsn
+\* A flush is torn structurally when the crash leaves some of its pages written and some not, and
+\* the flush included pages that had never been written before (allocated by a split or by CREATE
+\* TABLE since the last completed flush).  Redo is keyed on the LSN of the page a record names, so
+\* a half-written structural change is not repaired: known finding torn-structural-flush.
+TornStructural == /\ pc.orig \ pc.todo # {} /\ pc.todo # {} /\ pc.fresh # {}
 
 \* does the durable part of the statement's records end between an insert record and the
 \* root-move record that follows it?  (known finding rootmove-record-cut)
@@ -367,7 +370,7 @@ Crash(keep) ==
         /\ cands' = CASE pc.after = "idle" -> <<abs>>
                       [] pc.after = "create" -> <<abs>> \o pend
                       [] pc.after = "rec" -> cands
-        /\ taint' = IF SameLsnTorn THEN taint \cup {"torn-split-flush"} ELSE taint
+        /\ taint' = IF TornStructural THEN taint \cup {"torn-structural-flush"} ELSE taint
         /\ scope' = "tornflush"      \* C04 judges the state right after the restart; later statements are out of scope
         /\ UNCHANGED <<walD, torn>>
   /\ pc' = [Idle EXCEPT !.k = "down"]
@@ -406,7 +409,7 @@ Recover ==
              /\ UNCHANGED <<disk, dhdr, cache, mhdr, abs, pend, cands>>
         ELSE IF FlushSteps
         THEN /\ cache' = r.c /\ mhdr' = h2 /\ Out("none")
-             /\ pc' = [Idle EXCEPT !.k = "flush", !.todo = DOMAIN r.c, !.orig = DOMAIN r.c, !.after = "rec"]
+             /\ pc' = [Idle EXCEPT !.k = "flush", !.todo = DOMAIN r.c, !.orig = DOMAIN r.c, !.fresh = (DOMAIN r.c) \ (DOMAIN disk), !.after = "rec"]
              /\ UNCHANGED <<disk, dhdr, abs, pend, cands>>
         ELSE /\ disk' = Written(disk, r.c, DOMAIN r.c) /\ dhdr' = h2
              /\ RecoveredTo(disk', h2)
